@@ -408,7 +408,7 @@ Proof.
   intros L RD. unfold promote. destruct (promote_loop _ _ _ _ _) as [infl m] eqn:P.
   apply promote_loop_spec in P as (_ & m2 & -> & F). cbn in F |- *.
   unfold ReadyDue. cbn. apply Forall_app. split; [eapply ReadyDue_mono; eauto|].
-  rewrite Forall_forall in *. intros c Hc. apply (Permutation_in _ (reorder_perm order m2)) in Hc.
+  rewrite Forall_forall in *. intros c Hc. apply (Permutation_in _ (reorder_perm _ m2)) in Hc.
   apply F in Hc. unfold due in Hc. now apply N.leb_le.
 Qed.
 
@@ -620,7 +620,7 @@ Proof.
     rewrite Forall_forall in D. rewrite (D c H) in Hc. discriminate. }
   subst infl. cbn. split; [reflexivity|]. split; [|reflexivity].
   rewrite app_length. f_equal. cbn in Pm.
-  rewrite (Permutation_length (reorder_perm order m)). symmetry. now apply Permutation_length.
+  rewrite (Permutation_length (reorder_perm _ m)). symmetry. now apply Permutation_length.
 Qed.
 
 Lemma drain_all orders : forall r fs,
